@@ -57,6 +57,36 @@ CHECKS = {
          "C04-style histories are run on two tracks: B is replaced by decode(encode(state)) before every step (pass 1) or before a random third of the steps (pass 2), including immediately after refused bad replies at every reply point. Compared at every step: emitted messages byte for byte, accept / refuse and error variants, and closing messages obtained from copies of both tracks (fields, and bytes under identical randomness). A restore that fails to decode is a violation.",
          "Histories are sampled. State images are compared only as a diagnostic (the property speaks of behaviour).",
          "DESIGN.md §4 C20"),
+ "C07": ("exploration",
+         "runtime monitoring: differential of Signature::verify against an independent two-pairing evaluation on wire atoms, over derivation chains, perturbations, attacker bytes and degenerate signatures made through the API with a scripted RNG",
+         "For N in {1,2,3,5,8,13}, several key pairs and messages with entries from {0,1,q-1,small,2^63-1,2^63,random}, signatures are derived through random chains of sign / randomize / blind_and_randomize -> unblind / blind-sign (via a request proof) -> unblind and compared with the reference relation (sigma1 != 1 and e(sigma1, X~ prod Y~_i^m_i) = e(sigma2, g~), computed with bls12_381::pairing from the key's wire atoms) on the right message, every single-coordinate change, exchanged coordinates, another key and wrong blinding factors; signatures decoded from attacker bytes (random points, (P,xP), forgeries built from the secret scalars, sigma2 = identity); and the all-identity signature produced through randomize / blind_and_randomize / BlindedSignature::new / blind_sign with a zero randomiser, which must never verify.",
+         "Trusts bls12_381 pairings and the tracer. Exploration over sampled keys and messages.",
+         "DESIGN.md §4 C07"),
+ "C08": ("exploration",
+         "runtime monitoring: end-to-end request -> verify -> blind-sign -> unblind against the pairing reference, with atom-wise tampering of the request",
+         "For every N, several keys and edge messages an honest SignatureRequestProof must yield a blind-signable value whose signature, unblinded with the requester's factor, verifies (reference and library) on the requester's message and on no message differing in one coordinate; the proof's commitment atom must equal the independently recomputed Pedersen commitment. Every atom of the request replaced (other valid value, +1, identity, negation, the same atom of a second honest request), commitments exchanged, the challenge changed, another key: all must yield None.",
+         "VerifiedBlindedMessage has no accessor: 'is the very commitment of the proof' is observed through the signature it leads to and through the proof's commitment atom.",
+         "DESIGN.md §4 C08"),
+ "C09": ("exploration",
+         "runtime monitoring: Commitment::new / verify_opening against an explicit sum over generators the harness supplied or read from the wire",
+         "G1 and G2, N in {1,2,3,5,8,13}, parameters from explicit generators (random, with known discrete logarithms), PedersenParameters::new (generators recovered from the encoding) and a public key; messages and blinding factors over {0,1,q-1,random}: to_element must equal the reference sum, verify_opening must equal (reference == commitment) for the original opening, every single-coordinate change (+1, -1, random), changed blinding factors, other commitments, the identity and random elements, colliding openings under known discrete logarithms (must be accepted), and additivity in message and blinding factor.",
+         "Trusts bls12_381 group arithmetic.",
+         "DESIGN.md §4 C09"),
+ "C10": ("exploration",
+         "runtime monitoring: honest provers of every proof type run across edge messages, every subset of linked slots and all documented constraint patterns; verification result, builder/proof challenge equality and response-scalar relations observed",
+         "4 proof types x N in {1,2,3,5,8,13} x 12 edge-message variants x every subset of caller-chosen commitment scalars (N<=5; sampled for 8, 13; scalars from {0,q-1,random}): builder challenge = proof challenge, the proof verifies, r_i = c m_i + s_i. Patterns: partial opening, equality within and across all 16 ordered type pairs, secret sum (also across three proofs), public addition, public product, range link for 22 boundary values x 4 proof types, conjunctions of four proofs and a four-proof chain under one challenge.",
+         "Completeness only; sampled subsets for the longest tuples.",
+         "DESIGN.md §4 C10"),
+ "C11": ("exploration",
+         "runtime monitoring: differential of the three library verifiers against Schnorr / pairing relations recomputed from the proofs' wire atoms, over per-atom perturbations, simulated transcripts and degenerate signatures",
+         "Every proof type, group and N: honest proofs; each atom replaced in turn (other valid point, identity, scalar +-1, random); wrong challenges; fresh and atom-wise altered parameters; simulated transcripts (T computed from c and chosen responses: accepted under c, rejected under c'), compensated changes, objects assembled without an opening; signature proofs around signatures made all-identity through a scripted RNG (checked in memory since they do not decode). Verifier result must equal the reference in both directions; the three conjuncts of the signature-proof relation are each observed false on their own.",
+         "A Challenge can only be obtained from ChallengeBuilder, so hand-picked challenges (0, c+1) are out of reach.",
+         "DESIGN.md §4 C11"),
+ "C13": ("fault_enumeration",
+         "runtime monitoring: range prover domain, link/parameter/challenge mismatches, attacker-assembled constraints from the published digit signatures (layout observed, not hard-coded), and validate() against 128 reference verifications",
+         "The prover must refuse every negative i64 of the boundary set and random negatives and accept every in-range value; honest constraints linked to commitment / signature / signature-request proofs verify with the linked slot and reject under seven mismatches (other slots, response+1, plain value, zero, other parameters, other challenge). The forger (shadow RangeProver; L and U read from a traced honest constraint and parameter set) assembles constraints for 2^63, 2^63+1, 2^64-1, q-1, q-2^63 with residue / all-max / outside-alphabet / negative / lowered-top digits, swapped digits, signatures claimed for other digits, digits of another value: none may verify while the linked value is outside [0,2^63); all-max (2^63-1) must verify. validate(): one signature replaced by another digit's, a random pair, or a re-randomised valid one, compared with 128 reference verifications.",
+         "Explicit forger family only.",
+         "DESIGN.md §4 C13"),
  "C12": ("exploration",
          "runtime monitoring: differential over wire atoms - replace one first-message atom, challenge must move; merchant-side challenge observed through the challenge-recorder hook",
          "Library level: for every proof type, group and tuple length the builder's challenge must equal the finished proof's, and every non-response atom (identified by answering one builder under two challenges, cross-checked against field names) as well as every atom of every other ChallengeInput type (keys, Pedersen and range parameters, signatures, commitments, bare elements, byte strings, Context inputs of length 0..64 with every byte flipped) is replaced by a different valid encoding and the recomputed challenge must differ. zkAbacus level: the real customer prover is run twice with identical randomness and different contexts to find the atoms fixed before the challenge; each is replaced in turn in an EstablishProof / PayProof that is then fed to the real initialize / allow_payment and the challenge recorded by the hook must differ from the original's; likewise for each public value, the key, the range parameters and context bytes. Exhaustive over atoms of one instance per type in the quick tier.",
